@@ -16,14 +16,19 @@
 (***************************************************************************)
 EXTENDS Integers, Sequences, FiniteSets
 
-ImportChoices == {0, 1, 3}
+\* 0, 1, 3: that many fixed custom imports; 9: custom imports chosen against the module set -- one per symbol that the set's
+\* own IMPORTS bring in, a path whose last segment *ends in* that symbol's Rust name (a user type PinnedCertificate next to an
+\* imported Certificate)
+ImportChoices == {0, 1, 3, 9}
 AnnChoices == {"default", "extra_derives", "extra_attr", "twice", "with_copy"}
 Cfg == [opaque : BOOLEAN, wild : BOOLEAN, from : BOOLEAN, nostd : BOOLEAN, imports : ImportChoices, ann : AnnChoices]
 Default == [opaque |-> TRUE, wild |-> FALSE, from |-> FALSE, nostd |-> FALSE, imports |-> 0, ann |-> "default"]
 
 \* what the harness passes as Config::custom_imports / Config::type_annotations
 AllCustomImports == <<"verif_a::Alpha", "verif_b::*", "verif_c::inner::{Beta,Gamma}">>
-CustomImports(n) == SubSeq(AllCustomImports, 1, n)
+CustomImports(n) == IF n = 9 THEN <<>> ELSE SubSeq(AllCustomImports, 1, n)
+Colliding(syms) == [i \in DOMAIN syms |-> "verif_s::Pinned" \o syms[i]]
+CustomImportsFor(n, syms) == IF n = 9 THEN Colliding(syms) ELSE CustomImports(n)
 DefaultLine == "#[derive(AsnType, Debug, Clone, Decode, Encode, PartialEq, Eq, Hash)]"
 Annotations(a) ==
     CASE a = "default" -> <<DefaultLine>>
@@ -42,7 +47,7 @@ ExtraAttrs(a) == IF a = "extra_attr" THEN <<"#[allow(dead_code)]", "#[cfg_attr(f
 Lazy(c) == IF c.nostd THEN "lazy_static::lazy_static" ELSE "std::sync::LazyLock"
 SuperUse(c, u) == [module |-> u.module, list |-> IF c.wild THEN <<"*">> ELSE u.list]
 Super(c, base) == [i \in DOMAIN base |-> SuperUse(c, base[i])]
-Other(c, base) == base \o CustomImports(c.imports)
+Other(c, base, syms) == base \o CustomImportsFor(c.imports, syms)
 Derives(c, base) == base \cup ExtraDerives(c.ann)          \* as a set; no derive may be listed twice
 Attrs(c, base) == ExtraAttrs(c.ann) \o base
 Form(c, base) == IF base = "const" THEN "const" ELSE IF c.nostd THEN "lazy_static" ELSE "LazyLock"
@@ -68,6 +73,6 @@ FromCoherent(c, p, v) ==
 RequiredStay(c, base) == Required \subseteq base => Required \subseteq Derives(c, base)
 \* the default configuration renders the base itself
 DefaultIsIdentity(sup, oth, der, att, frm) ==
-    /\ Super(Default, sup) = sup /\ Other(Default, oth) = oth /\ Derives(Default, der) = der
+    /\ Super(Default, sup) = sup /\ Other(Default, oth, <<"A">>) = oth /\ Derives(Default, der) = der
     /\ Attrs(Default, att) = att /\ Form(Default, frm) = frm
 =============================================================================
